@@ -277,12 +277,17 @@ class RealEngine:
         gc.collect()
         return [[Sym('q'), answers, ending, bound_count()], Sym('ok')]
 
-    def evaluate_bounded(self, limit, name, terms, raise_at):
+    def evaluate_bounded(self, limit, name, terms, raise_at, nested=None):
+        """nested = (limit2, name2, terms2): the projection itself runs a bounded query on this engine
+        (its results and the limits seen around it are appended to nested[3])"""
         args = [self.term(t) for t in terms]
         calls = [0]
 
         def proj(x):
             calls[0] += 1
+            if nested is not None:
+                inner, lims = self.evaluate_bounded(nested[0], nested[1], nested[2], None)
+                nested[3].append((inner, lims))
             if raise_at is not None and calls[0] >= raise_at:
                 raise user_exception('projection %d' % calls[0])
             return canon_terms(args)
